@@ -118,13 +118,13 @@ func checkC18(rep *Report, rng *Rng, tier string) {
 			}
 		}
 		for j := 0; j < 6; j++ {
-			k := []string{"vall", "vmut", "nasc", "ndesc", "nit", "vmut"}[r.Intn(6)]
+			k := []string{"vall", "vmut", "nasc", "ndesc", "nit", "vmutd"}[r.Intn(6)]
 			stop := -1
 			if r.Chance(1, 2) {
 				stop = r.Intn(n + 1)
 			}
 			tgt := []byte{}
-			if k == "vall" || k == "ndesc" {
+			if k == "vall" || k == "ndesc" || k == "vmutd" {
 				tgt = []byte{0xff}
 			}
 			ops = append(ops, Op{K: k, Name: "c", Key: tgt, WV: r.Chance(1, 2), N: stop})
